@@ -237,6 +237,29 @@ def _shape_table():
             return None
         return [max(lo, -(1 << 63)), 1, 2, 4]
 
+    @shape("span64_holes")
+    def _(r, lo, hi, signed, bits):
+        # MAX - MIN an exact multiple of 64 (a bitmap of the members, one word short: round 6, W01a)
+        return [3, 5, 6, 67]
+
+    @shape("span128_neg")
+    def _(r, lo, hi, signed, bits):
+        if not signed:
+            return None
+        return [-128, -127, -1, 0]
+
+    @shape("span256_holes")
+    def _(r, lo, hi, signed, bits):
+        if bits == 8:
+            return [0, 1, 100, 192] if not signed else [-64, -63, 0, 64]
+        return [0, 1, 100, 256]
+
+    @shape("span448_holes")
+    def _(r, lo, hi, signed, bits):
+        if bits == 8:
+            return None
+        return [-200, -199, 0, 248] if signed else [10, 11, 200, 458]
+
     @shape("many_runs_40")
     def _(r, lo, hi, signed, bits):
         # ~40 runs of uneven length (more than any plausible "many runs" threshold), ~100 variants
